@@ -717,14 +717,19 @@ pub fn replay(case: &serde_json::Value) {
         let concat = crate::bits::unhex(case["concatenated"].as_str().unwrap_or(""));
         let n = case["pictures"].as_u64().unwrap_or(1) as usize;
         let split = case["split"].as_u64().unwrap_or(1) as usize;
+        let init: Vec<Vec<u8>> = case["init"].as_array().map(|a| a.iter().map(|v| crate::bits::unhex(v.as_str().unwrap_or(""))).collect()).unwrap_or_default();
         let mut st = H263State::new(options_from_bits(opts));
+        for b in &init {
+            let _ = decode_bytes(&mut st, b);
+        }
         let mut rd = H263Reader::from_source(&concat[..]);
         let mut expect = vec![];
         for _ in 0..n {
             let _ = decode_with(&mut st, &mut rd);
             expect.push(last_snap(&st));
         }
-        println!("{n} pictures, {} bytes, first delivery {split} bytes, retry after the rest arrived -> {:?}", concat.len(), deliver_in_two(opts, &[], &concat, split, &expect));
+        let init_refs: Vec<&[u8]> = init.iter().map(|b| &b[..]).collect();
+        println!("{n} pictures after {} earlier ones, {} bytes, first delivery {split} bytes, retry after the rest arrived -> {:?}", init.len(), concat.len(), deliver_in_two(opts, &init_refs, &concat, split, &expect));
         return;
     }
     let opts = case["options"].as_u64().unwrap_or(1) as u8;
